@@ -145,6 +145,7 @@ func runChild(args []string) int {
 		return 2
 	}
 	_ = os.MkdirAll(c.dir, 0755)
+	SetProcessZone(c.shard)
 	e, err := NewEnv(c.prop, c.tier, c.seed, c.shard, c.nshards, c.dir)
 	if err != nil {
 		fmt.Fprintln(os.Stderr, err)
@@ -732,4 +733,19 @@ func truncateBytes(b []byte, n int) []byte {
 		return b[:n]
 	}
 	return b
+}
+
+// ProcessZones are the process-wide local time zones the children run under (klog must not depend on it): UTC, zones whose
+// daylight-saving switch happens at local midnight (that midnight does not exist), a zone that skipped a whole day, odd offsets.
+var ProcessZones = []string{"UTC", "America/Santiago", "Europe/Berlin", "America/Havana", "Pacific/Apia", "Asia/Kathmandu", "America/Sao_Paulo", "Atlantic/Azores",
+	"America/New_York", "Australia/Lord_Howe", "America/Asuncion", "Pacific/Kiritimati", "Asia/Tehran", "Africa/Cairo", "Pacific/Chatham", "UTC"}
+
+// SetProcessZone sets time.Local for this process according to the shard number (no-op if tzdata is missing).
+func SetProcessZone(shard int) string {
+	name := ProcessZones[((shard%len(ProcessZones))+len(ProcessZones))%len(ProcessZones)]
+	if loc, err := time.LoadLocation(name); err == nil {
+		time.Local = loc
+		return name
+	}
+	return "UTC"
 }
